@@ -20,7 +20,20 @@ def quoted64 (src : String) : List String :=
 
 def exceptionHashes : List String := quoted64 Mixin.Facts.Gen.storage_lockGhostKey_src
 
-def cfg : Cfg := { exc := (List.range exceptionHashes.length).map (· + 101), nodes := [1, 2] }
+/-- output types: which ones finalization materialises / skips (case table of `UnspentOutputs`)
+    and which have a side effect (switch of `writeUTXO`); values are the regenerated constants,
+    the tables are pinned in `Mixin.Facts.ExpectedC04`. -/
+def outKinds : OutKinds :=
+  let g := Mixin.Facts.Gen.common_OutputTypeScript
+  { materialized := [g, Mixin.Facts.Gen.common_OutputTypeNodePledge, Mixin.Facts.Gen.common_OutputTypeNodeCancel,
+      Mixin.Facts.Gen.common_OutputTypeNodeAccept, Mixin.Facts.Gen.common_OutputTypeNodeRemove,
+      Mixin.Facts.Gen.common_OutputTypeWithdrawalClaim, Mixin.Facts.Gen.common_OutputTypeCustodianUpdateNodes],
+    skipped := [Mixin.Facts.Gen.common_OutputTypeWithdrawalSubmit, Mixin.Facts.Gen.common_OutputTypeCustodianSlashNodes],
+    sideTypes := [Mixin.Facts.Gen.common_OutputTypeNodePledge, Mixin.Facts.Gen.common_OutputTypeNodeCancel,
+      Mixin.Facts.Gen.common_OutputTypeNodeAccept, Mixin.Facts.Gen.common_OutputTypeNodeRemove,
+      Mixin.Facts.Gen.common_OutputTypeCustodianUpdateNodes, Mixin.Facts.Gen.common_OutputTypeWithdrawalClaim] }
+
+def cfg : Cfg := { exc := (List.range exceptionHashes.length).map (· + 101), nodes := [1, 2], kinds := outKinds }
 
 structure St where
   s : Store := {}
@@ -61,15 +74,21 @@ def parseIns : Nat → List Nat → Option (List In × List Nat)
     | _, _ => none
   | _, _ => none
 
-/-- `n` outputs: `nkeys k…` each -/
-def parseOuts : Nat → List Nat → Option (List (List Nat) × List Nat)
+/-- `n` outputs: `typ nkeys k…` each -/
+def parseOuts : Nat → List Nat → Option (List OutSpec × List Nat)
   | 0, r => some ([], r)
-  | n + 1, nk :: r =>
+  | n + 1, typ :: nk :: r =>
     if r.length < nk then none else
     match parseOuts n (r.drop nk) with
-    | some (os, r') => some (r.take nk :: os, r')
+    | some (os, r') => some ({ typ := typ, keys := r.take nk } :: os, r')
     | none => none
   | _, _ => none
+
+def sideOf : Nat → Option Side
+  | 0 => some .ok
+  | 1 => some .err
+  | 2 => some .panic
+  | _ => none
 
 def parsePairs : List Nat → Option (List (Nat × Nat))
   | [] => some []
@@ -129,10 +148,15 @@ def parseOp (st : St) (t : List String) : Option Op :=
     | _ => none
   | ["writetx", id] => id.toNat?.bind (findTx st) |>.map .writeTx
   | "snapshot" :: rest =>
-    match nats rest with
-    | some (node :: n :: ids) =>
-      if ids.length ≠ n then none else (ids.mapM (findTx st)).map (.snapshot node)
-    | _ => none
+    -- snapshot node n id… [! side]   (side: what the harness observed of the side effects)
+    let (body, side?) : List String × Option Side :=
+      match rest.reverse with
+      | fl :: "!" :: rb => (rb.reverse, fl.toNat?.bind sideOf)
+      | _ => (rest, some .ok)
+    match nats body, side? with
+    | some (node :: n :: ids), some side =>
+      if ids.length ≠ n then none else (ids.mapM (findTx st)).map (fun txs => .snapshot node txs side)
+    | _, _ => none
   | _ => none
 
 def resTag : Res → String
@@ -178,7 +202,7 @@ def step (st : St) (t : List String) : St × String :=
   | ["exceptions"] => (st, "ok " ++ " ".intercalate exceptionHashes)
   | "deftx" :: rest =>
     match nats rest with
-    | some (id :: nin :: r) =>
+    | some (id :: _actor :: nin :: r) =>
       match parseIns nin r with
       | some (ins, nout :: r') =>
         match parseOuts nout r' with
